@@ -63,10 +63,12 @@ func sortStrings(a []string) {
 func stripComments(s string) string {
 	lines := strings.Split(s, "\n")
 	for i, l := range lines {
+		// only a line that carries a comment is cut (a line of blanks, e.g. the body of a condition with an
+		// empty expression, is content and stays as it is)
 		if j := strings.Index(l, " #"); j >= 0 {
-			l = l[:j]
+			l = strings.TrimRight(l[:j], " ")
 		}
-		lines[i] = strings.TrimRight(l, " ")
+		lines[i] = l
 	}
 	return strings.Join(lines, "\n")
 }
